@@ -2,5 +2,5 @@ CONSTANTS MaxDepth = 2
           MaxRowsC = 14
           LawDepth = 2
 INIT Init
-NEXT BNext
+NEXT Next
 CONSTRAINT GenBound
